@@ -183,14 +183,14 @@ def d3_archives(ctx):
     rule = 'C18-D3'
     js = ctx.repo.mod('input.json')
     f = js.func('load_json')
-    t = unparse(f)
+    t = js.text(f)
     ok = "gzip.open(fname, 'r')" in t and 'json.load(fin)' in t and 'json.loads(fin.read())' in t
     ctx.check(rule, 'input/json.py:load_json#whole-document', ok, 'the whole (decompressed) stream is handed to the JSON parser', 'load_json differs')
     ctx.check(rule, 'input/json.py:load_json#no-handler', not [s for s in statements(f) if isinstance(s, ast.Try)], 'no handler around decompression / parsing', 'load_json wraps parsing in try/except')
     dm = ctx.repo.mod('input.dobs')
     for q in ('read_pobs', 'read_dobs'):
         f = dm.func(q)
-        t = unparse(f)
+        t = dm.text(f)
         ok = "gzip.open(fname, 'r')" in t and 'content = fin.read()' in t
         ctx.check(rule, 'input/dobs.py:%s#whole-document' % q, ok, 'the whole decompressed content is read before parsing', '%s differs' % q)
         ctx.check(rule, 'input/dobs.py:%s#no-handler' % q, not [s for s in statements(f) if isinstance(s, ast.Try)], 'no handler around decompression / parsing', '%s wraps reading in try/except' % q)
@@ -203,7 +203,7 @@ def d3_archives(ctx):
     ctx.check(rule, 'input/dobs.py#no-recover', not rec, 'no recovering XML parser anywhere in the module', 'recover= used')
     pm = ctx.repo.mod('input.pandas')
     f = pm.func('load_df')
-    t = unparse(f)
+    t = pm.text(f)
     ok = 'with gzip.open(fname) as f:' in t and 'pd.read_csv(f, keep_default_na=False)' in t
     ctx.check(rule, 'input/pandas.py:load_df#whole-document', ok, 'csv parsed from the gzip stream', 'load_df differs')
     ctx.check(rule, 'input/pandas.py:load_df#no-handler', not [s for s in statements(f) if isinstance(s, ast.Try)], 'no handler', 'load_df wraps reading in try/except')
